@@ -51,8 +51,13 @@ def path_join_safe(root_directory: str, filename: str):
     if ".." in parts or "." in parts:
         raise ValueError("invalid path")
 
+    root_directory = os.path.abspath(root_directory)
     path = os.path.join(root_directory, filename)
     path = os.path.abspath(path)
+
+    # an absolute filename replaces the root when joined
+    if os.path.commonpath([root_directory, path]) != root_directory:
+        raise ValueError("invalid path")
 
     return path
 
